@@ -99,7 +99,7 @@ func TestPubSubFree(t *testing.T) {
 			}
 			s.ackYield = rapid.SampledFrom([]int{0, 0, 0, 1, 3}).Draw(t, "ackYield")
 			s.bodyYield = rapid.SampledFrom([]int{0, 0, 1, 3}).Draw(t, "bodyYield")
-			s.leaveBy = rapid.SampledFrom([]string{"cancel", "break"}).Draw(t, "leaveBy")
+			s.leaveBy = rapid.SampledFrom([]string{"cancel", "cancel", "break", "break", "panic", "goexit"}).Draw(t, "leaveBy")
 			if s.kind == "iter-never-run" {
 				// contract: an iterator that is not run must have its context cancelled promptly, otherwise
 				// every Send (correctly) waits for it; so it leaves at the first Send call at the latest
@@ -246,7 +246,7 @@ func TestPubSubFree(t *testing.T) {
 						defer close(helperDone)
 						<-quit
 						if s.leaveBy != "cancel" {
-							// a "break" leaver waits for its next message; once the senders are done none will come
+							// a break/panic/goexit leaver waits for its next message; once the senders are done none will come
 							<-doneCh
 						}
 						cancelStamp.CompareAndSwap(0, stamp())
@@ -259,25 +259,44 @@ func TestPubSubFree(t *testing.T) {
 							s.unsubCalled = cancelStamp.Load()
 						}
 					}()
-					for v := range seq {
-						// the iterator has already called Wait
-						at := stamp()
-						s.got = append(s.got, psfRecv{tok: v, recvAt: at, waitCall: at})
-						psfYield(s.bodyYield)
-						if s.maxRecv >= 0 && len(s.got) >= s.maxRecv {
-							s.unsubCalled = stamp()
-							break
-						}
-						if s.leaveBy == "break" {
-							select {
-							case <-quit:
+					// the loop may also be left by unwinding: a panic in the body (recovered by the caller) or
+					// runtime.Goexit (e.g. t.FailNow) — "leaving its iterator early" without break or cancel
+					loopDone := make(chan struct{})
+					go func() {
+						defer close(loopDone)
+						defer func() { _ = recover() }()
+						for v := range seq {
+							// the iterator has already called Wait
+							at := stamp()
+							s.got = append(s.got, psfRecv{tok: v, recvAt: at, waitCall: at})
+							psfYield(s.bodyYield)
+							if s.maxRecv >= 0 && len(s.got) >= s.maxRecv {
 								s.unsubCalled = stamp()
-								goto out
-							default:
+								switch s.leaveBy {
+								case "panic":
+									panic("psf: leaving the iterator by panic")
+								case "goexit":
+									runtime.Goexit()
+								}
+								break
+							}
+							if s.leaveBy == "break" || s.leaveBy == "panic" || s.leaveBy == "goexit" {
+								select {
+								case <-quit:
+									s.unsubCalled = stamp()
+									switch s.leaveBy {
+									case "panic":
+										panic("psf: leaving the iterator by panic")
+									case "goexit":
+										runtime.Goexit()
+									}
+									return
+								default:
+								}
 							}
 						}
-					}
-				out:
+					}()
+					<-loopDone
 					s.unsubReturned = stamp()
 				}
 			}
